@@ -77,6 +77,9 @@ def _classify(fr, pos, kw, star, wrappers):
         return True, "simultaneous dict"
     if star is None and "**" not in kw and len(pos) == 2:
         return True, "single (old, new) pair"
+    sv = star.find() if isinstance(star, sf._Cell) else star
+    if isinstance(sv, sf.Tup) and len(sv.items) == 2 and not pos and "**" not in kw:
+        return True, "single (old, new) pair passed as *pair"
     if star is None and len(pos) == 1:
         return _classify_value(fr, pos[0], wrappers)
     return False, f"call shape with {len(pos)} positional arguments{' and *args' if star is not None else ''}"
